@@ -235,6 +235,7 @@ type Pool struct {
 	free []any
 	once bool
 	gen  uint64 // dsim.Generation() the free list belongs to
+	mu   sync.Mutex
 }
 
 // sync resets the free list when a new scenario run has begun: a pool is process state, and a
@@ -250,11 +251,21 @@ func (p *Pool) sync() {
 func (p *Pool) Get() any {
 	s := dsim.Active()
 	if s == nil || s.Stopping() {
-		if !p.once {
-			p.real.New = p.New
-			p.once = true
+		// outside a simulation (sequential checks call the code directly): the same free list,
+		// reset per scenario run like inside, so that a run never sees what an earlier run of the
+		// same worker process left in a pool and replays in a fresh process
+		p.mu.Lock()
+		defer p.mu.Unlock()
+		p.sync()
+		if n := len(p.free); n > 0 {
+			x := p.free[n-1]
+			p.free = p.free[:n-1]
+			return x
 		}
-		return p.real.Get()
+		if p.New != nil {
+			return p.New()
+		}
+		return nil
 	}
 	s.Yield("pool.get")
 	p.sync()
@@ -273,11 +284,13 @@ func (p *Pool) Get() any {
 func (p *Pool) Put(x any) {
 	s := dsim.Active()
 	if s == nil || s.Stopping() {
-		if !p.once {
-			p.real.New = p.New
-			p.once = true
+		if x == nil {
+			return
 		}
-		p.real.Put(x)
+		p.mu.Lock()
+		defer p.mu.Unlock()
+		p.sync()
+		p.free = append(p.free, x)
 		return
 	}
 	if x == nil {
